@@ -61,16 +61,6 @@ Proof.
   apply String.eqb_eq in H. exact H.
 Qed.
 
-(* what apply_action does to the target column *)
-Definition after_col (a : action) (col : column_def) : column_def :=
-  match a with
-  | ModifyColumnType _ _ ty _ => set_type ty col
-  | ModifyColumnNullable _ _ n _ => set_nullable n col
-  | ModifyColumnDefault _ _ d => set_default (option_map default_of_string d) col
-  | ModifyColumnComment _ _ m => set_comment m col
-  | _ => col
-  end.
-
 Lemma apply_modify_lookup : forall s a t c col s',
   modify_target a = Some (t, c) -> lookup_column s t c = Some col -> apply_action s a = Ok s' ->
   lookup_column s' t c = Some (after_col a col).
